@@ -259,9 +259,7 @@ class MaskCombinator(Generic[R], GenerativeFunction[Mask[R]]):
             MaskTrace.build(self, premasked_trace, post_check),
             final_weight,
             Mask.build(retdiff, check_diff),
-            Update(
-                inner_chm.mask(post_check),
-            ),
+            Update(inner_chm),
         )
 
     def assess(
